@@ -48,6 +48,10 @@ def pascal(s): return "".join(w[0].upper() + w[1:].lower() for w in heck_words(s
 METHOD_NAMES = ["Self", "Try", "Super", "Ping", "GetURL", "Get2FA", "GetInfo", "IOList", "X", "Type", "ListAll", "SetV2Config", "HTTPServerStart", "Resolve", "Match", "Async", "Q9", "GetIPv6Addr", "ABc", "Loop", "Monitor", "DoIt"]
 FIELD_NAMES = ["try", "yield", "box", "super", "crate", "hostName", "theURL", "user_id", "x", "type", "match", "n2", "a_b", "ID", "iPv6Addr", "Value", "is2FA", "name", "flags", "async", "fn", "count", "Items", "self", "ifIndex", "HTTPCode", "in", "r_2", "q"]
 VARIANT_NAMES = ["idle", "Busy", "IPv4", "IPv6", "unspec", "not_set", "in_progress", "a", "type", "HTTP2", "ok", "Off", "match", "x9", "camelCase", "Self", "v_1"]
+# enums whose values are ALL lower snake_case, some with a segment that starts with a digit (heck drops that
+# boundary: sha_256 -> Sha256 -> sha256), so that a generator which derives the wire spelling from the Rust
+# identifier instead of pinning it is exposed
+SNAKE_VARIANT_NAMES = ["idle", "busy", "in_progress", "sha_1", "sha_256", "sha3_512", "v_2", "utf_8", "md5", "not_set", "x9", "a_b_c", "r_2d2", "blake2b", "type", "match"]
 TYPE_NAMES = ["Self", "Person", "MyURL", "IOStat", "T2", "Config", "Type", "Family", "HTTPHeader", "X", "Rec9", "State", "Match"]
 ERROR_NAMES = ["Self", "NotFound", "NotOK", "IOError", "E2BIG", "Busy", "Type", "InvalidURL", "X", "No2FA", "Failed", "Match"]
 IFACE_LAST = ["9p", "self", "Ping", "ping", "myService", "FTL", "x2y", "foo-bar", "Machine", "io", "HTTPd", "a"]
@@ -72,7 +76,7 @@ def gen_type(rng, customs, depth=0, allow_opt=True):
         return ("custom", rng.choice(customs)["name"])
     if r < 0.96:
         return ("struct", gen_fields(rng, customs, depth + 1, 1, 3))
-    return ("enum", pick_names(rng, VARIANT_NAMES, rng.randint(1, 3), snake_unique=False))
+    return ("enum", pick_names(rng, SNAKE_VARIANT_NAMES if rng.random() < 0.35 else VARIANT_NAMES, rng.randint(1, 3), snake_unique=False))
 
 def pick_names(rng, pool, n, snake_unique=True, conv=snake):
     out, seen = [], set()
@@ -105,7 +109,7 @@ def gen_iface(rng, i):
         used.add(pascal(tn))
         member_names.add(tn)
         if rng.random() < 0.35:
-            vs = pick_names(rng, VARIANT_NAMES, rng.randint(1, 4), conv=pascal)
+            vs = pick_names(rng, SNAKE_VARIANT_NAMES if rng.random() < 0.35 else VARIANT_NAMES, rng.randint(1, 4), conv=pascal)
             customs.append(dict(kind="enum", name=tn, variants=vs))
         else:
             customs.append(dict(kind="object", name=tn, fields=gen_fields(rng, customs, 0, 1, 4)))
